@@ -1,0 +1,34 @@
+//go:build verif
+
+package iscp
+
+import (
+	"context"
+
+	"github.com/aptpod/iscp-go/transport"
+	uuid "github.com/google/uuid"
+)
+
+// VerifRegisterDialer registers a custom dialer for the transport name (same registry the package tests use).
+func VerifRegisterDialer(name TransportName, f func() transport.Dialer) {
+	customDialFuncs[name] = f
+}
+
+// VerifSentStorage exposes the unexported sent storage interface.
+type VerifSentStorage interface {
+	Store(ctx context.Context, streamID uuid.UUID, sequence uint32, dps DataPointGroups) error
+	Remove(ctx context.Context, streamID uuid.UUID, sequence uint32) (DataPointGroups, error)
+	List(ctx context.Context, streamID uuid.UUID) (map[uint32]DataPointGroups, error)
+	Clear(ctx context.Context, streamID uuid.UUID) error
+}
+
+func VerifNewInmemSentStorage() VerifSentStorage          { return newInmemSentStorage() }
+func VerifNewInmemSentStorageNoPayload() VerifSentStorage { return newInmemSentStorageNoPayload() }
+
+// VerifWithSentStorage is a ConnOption selecting the sent storage.
+func VerifWithSentStorage(s VerifSentStorage) ConnOption {
+	return func(c *ConnConfig) { c.sentStorage = s }
+}
+
+// VerifConnStatus returns the connection status (0 connected, 1 reconnecting, 2 closed).
+func (c *Conn) VerifConnStatus() int { return int(c.state.Current()) }
